@@ -44,6 +44,9 @@ def run(res):
     core.std_proof_coverage(res, "C16")
     from .. import stream
     scov = stream.run(res, "C16")
+    # the handshaker as a state machine: random Start / completion / Wait / Close histories against Model/Handshaker.v
+    from .. import hsm
+    res.coverage["handshaker_state_machine"] = hsm.run(res, "C16")
     out, defs, (rc, so, se) = core.gen_and_eval("C16", "c16", HEADER, FOOTER, env={"GOMEMLIMIT": "6GiB"})
     if out is None:
         res.violation("harness-abort", "the hostile-peer harness did not complete on the current tree (rc=%d): %s" % (rc, (se[se.find("WATCHDOG"):][:300] if "WATCHDOG" in se else se[-800:])),
